@@ -47,6 +47,8 @@ func vfC04(w *vfWorld) {
 	cfg.Store = vfPick(t, "c04.store", []string{"cookie", "redis"})
 	cfg.CookieRefresh, cfg.CookieExpire = 10*time.Minute, 48*time.Hour
 	cs.Store = cfg.Store
+	// a sixth of the worlds run their verifier configuration migrated to the alpha (YAML) format by the product's own converter
+	cfg.Alpha = t.Prob("c04.alpha-config", 160)
 	cfg.Extra = append(cfg.Extra, "--pass-access-token=true", "--skip-jwt-bearer-tokens=true", "--set-xauthrequest=true")
 	idp := w.StartIdP()
 	idp.IDTokenTTL, idp.AccessTTL = 30*time.Hour, 30*time.Hour
